@@ -100,6 +100,12 @@ def r03_7(ctx):
 
 
 def run(ctx):
+    ctx.rule("R03.10", "a run of characters taken from the queue is only appended to what the state collects: nothing per run (its length depends on the chunking)")
+    for _w in ("html", "xml"):
+        ctx.guard("R03.10", "runs/" + _w, lambda _w=_w: tr.runs_only_concatenate(ctx, "R03.10", _w))
+    ctx.rule("R03.11", "the whitespace tests the tree builder applies to character tokens are per-character predicates (some character is not ASCII whitespace): their answer for a text does not depend on how it was cut into tokens")
+    from .C02 import r02_13
+    ctx.guard("R03.11", "whitespace-predicates", lambda: r02_13(ctx, "R03.11"))
     ctx.rule("R03.7", "buffered table text is foster-parented iff some pending character token contains a non-whitespace character (independent of the split)")
     ctx.guard("R03.7", "table-text", lambda: r03_7(ctx))
     ctx.rule("R03.9", "every insertion mode that treats whitespace specially splits an unsplit character token first: the tree does not depend on where the tokenizer cut the text")
